@@ -339,6 +339,12 @@ func (w *Writer) appendEntry(e types.LogEntry) error {
 			w.info.BaseIndex, e.Index, w.info.BaseIndex+uint64(len(offsets)))
 	}
 
+	// Refuse entries the read path would reject rather than acknowledging data
+	// that can never be read back.
+	if len(e.Data) > MaxEntrySize {
+		return ErrTooBig
+	}
+
 	fh := frameHeader{
 		typ: FrameEntry,
 		len: uint32(len(e.Data)),
